@@ -10,7 +10,9 @@
     keys conform to the key leaf types); [resolve (AtCont kids data) l] is [Some _] exactly when every
     container, list and entry on the way is present in [data].  [render quals trailing kids l] is the
     RESTCONF path of [l]: keys percent-encoded and comma-separated, segment [n] module-qualified
-    when [quals] says so, trailing slash when [trailing].  [find pfx kids data start path] is
+    when [quals] says so, trailing slash when [trailing]; [render_with esc] writes each key's text
+    with [esc], ANY function that url.QueryUnescape decodes back and that leaves no raw '/', ','
+    or '?' ([valid_enc]: the reference encoder, lower-case hex, over-encoding, '+' for space...).  [find pfx kids data start path] is
     Selection.Find called on the selection at [start]. *)
 From Coq Require Import ZArith List Bool Strings.Byte.
 From YV Require Import Val.Model Tree.Schema Tree.Editor Tree.Pct Tree.PctProofs Tree.KeyText Tree.KeyTextProofs
@@ -22,6 +24,16 @@ Theorem C08_pct_roundtrip : forall s, unescape (escape s) = Some s.
 Proof. exact pct_roundtrip. Qed.
 Print Assumptions C08_pct_roundtrip.
 
+(** the reference encoder (= what Path.String() applies to keys) is a valid key encoding *)
+Theorem C08_reference_encoder_valid : valid_enc escape.
+Proof. exact escape_valid. Qed.
+Print Assumptions C08_reference_encoder_valid.
+
+(** so is, e.g., writing every byte as %xx with lower-case hex digits *)
+Theorem C08_overencoding_valid : valid_enc escape_all.
+Proof. exact escape_all_valid. Qed.
+Print Assumptions C08_overencoding_valid.
+
 (** the text a conforming key value prints as (strconv decimal, label, true/false, the string)
     converts back to exactly that value, for every integer format over its whole range *)
 Theorem C08_key_text_roundtrip : forall ty v, key_val_ok ty v -> conv_key ty (key_text v) = Some v.
@@ -31,39 +43,39 @@ Print Assumptions C08_key_text_roundtrip.
 (** Find from the root with the rendered path of a present location returns the selection at
     exactly that location: same schema positions, same key values (hence the content stored there),
     for every schema, data tree, location, qualification pattern and trailing-slash choice *)
-Theorem C08_find_render : forall pfx kids data l quals trailing cur,
+Theorem C08_find_render : forall esc, valid_enc esc -> forall pfx kids data l quals trailing cur,
   loc_ok kids l -> resolve (AtCont kids data) l = Some cur ->
-  find pfx kids data [] (render quals trailing kids l) = FOk (Some l).
-Proof. exact find_render. Qed.
+  find pfx kids data [] (render_with esc quals trailing kids l) = FOk (Some l).
+Proof. exact find_render_enc. Qed.
 Print Assumptions C08_find_render.
 
 (** a container, list or key on the way that is not present: no selection, no error *)
-Theorem C08_find_absent_none : forall pfx kids data l quals trailing,
+Theorem C08_find_absent_none : forall esc, valid_enc esc -> forall pfx kids data l quals trailing,
   loc_ok kids l -> resolve (AtCont kids data) l = None ->
-  find pfx kids data [] (render quals trailing kids l) = FOk None.
-Proof. exact find_absent_none. Qed.
+  find pfx kids data [] (render_with esc quals trailing kids l) = FOk None.
+Proof. exact find_absent_none_enc. Qed.
 Print Assumptions C08_find_absent_none.
 
 (** every start selection: from the selection at [base ++ ext], as many "../" as [ext] has
     selection levels (an entry counts two: entry and list), then the rendered path of [l] relative
     to [base] - found at [base ++ l] exactly when present.  [ext = []]: a path relative to an
     ancestor; [base = []], [ext = []]: from the root. *)
-Theorem C08_find_render_from : forall pfx kids data base ext bk bd l quals trailing,
+Theorem C08_find_render_from : forall esc, valid_enc esc -> forall pfx kids data base ext bk bd l quals trailing,
   resolve (AtCont kids data) base = Some (AtCont bk bd) ->
   loc_ok bk l ->
-  find pfx kids data (base ++ ext) (ups (chain_len (rev ext)) ++ render quals trailing bk l) =
+  find pfx kids data (base ++ ext) (ups (chain_len (rev ext)) ++ render_with esc quals trailing bk l) =
   FOk (match resolve (AtCont bk bd) l with Some _ => Some (base ++ l) | None => None end).
 Proof. exact find_render_from. Qed.
 Print Assumptions C08_find_render_from.
 
 (** a name that is not in the schema - after any schema-valid prefix, present in the data or not,
     followed by anything - gives the not-found error *)
-Theorem C08_find_unknown_notfound : forall pfx kids data pre quals name more sk,
+Theorem C08_find_unknown_notfound : forall esc, valid_enc esc -> forall pfx kids data pre quals name more sk,
   loc_ok kids pre -> scope_after kids pre = Some sk ->
   ident_ok name = true -> lookup_name sk name O = None ->
   Forall (fun s => free slash s /\ free qmark s) more ->
-  find pfx kids data [] (join slash (render_segs escape quals kids pre ++ name :: more)) = FErr FNotFound.
-Proof. exact find_unknown_notfound. Qed.
+  find pfx kids data [] (join slash (render_segs esc quals kids pre ++ name :: more)) = FErr FNotFound.
+Proof. exact find_unknown_notfound_enc. Qed.
 Print Assumptions C08_find_unknown_notfound.
 
 (** the path of the found selection identifies the same location: Find from the root with
